@@ -176,10 +176,9 @@ class Sym:
         st, sc, si = Sym._lift(self)
         if not st:
             return o._scale(sc)
-        # symbolic * symbolic
-        if si and oi:
-            return _engine().opaque_int("mul", self, o)
-        raise HarnessError("non-linear real arithmetic (symbolic * symbolic)")
+        # symbolic * symbolic: an opaque non-linear atom (NIA for integers -- used in bounded
+        # lemmas --, NRA for reals: the solver may answer unknown, which is inconclusive)
+        return _engine().opaque_mul(self, o, si and oi)
 
     __rmul__ = __mul__
 
@@ -286,7 +285,13 @@ class Sym:
         return v
 
     def __index__(self):
-        return int(self._concretize())
+        if not self.isint and self._val() is None:
+            # what CPython says for a float in range(), indexing, [x]*n ...
+            raise TypeError("'float' object cannot be interpreted as an integer")
+        v = self._concretize()
+        if not isinstance(v, int):
+            raise TypeError("'float' object cannot be interpreted as an integer")
+        return v
 
     def __int__(self):
         if not self.isint and self._val() is None:
@@ -933,14 +938,16 @@ class Engine:
         s = " + ".join("%s*%s" % (x, self.atoms[a][0]) for a, x in sorted(t.items()))
         return "%s + %s" % (s, c)
 
-    def opaque_int(self, op, a, b):
+    def opaque_mul(self, a, b, isint):
         ta, tb = self.z3_of(a), self.z3_of(b)
-        if op == "mul":
-            term = ta * tb
-        else:
-            raise HarnessError(op)
-        i = self._atom(term.sexpr(), term, True)
-        return Sym({i: 1}, 0, True)
+        if not isint:
+            if ta.is_int():
+                ta = z3.ToReal(ta)
+            if tb.is_int():
+                tb = z3.ToReal(tb)
+        term = ta * tb
+        i = self._atom(term.sexpr(), term, isint)
+        return Sym({i: 1}, 0, isint)
 
     def int_divmod(self, a, b):
         la, lb = Sym._lift(a), Sym._lift(b)
